@@ -1,56 +1,122 @@
 """Configuration of ./check for C02 (see tools/props.py)."""
 ENTRY = {'coq_dir': 'C02',
  'harness': 'c02',
- 'cases': {'quick': 3000, 'thorough': 60000},
- 'consts': ['MAX_NOISE_MSG_LEN', 'NOISE_EXTRA_ENCRYPT_SPACE', 'MAX_FRAME_LEN', 'MAX_READ_AHEAD_FACTOR', 'MAX_WRITE_BUFFER_SIZE'],
+ 'cases': {'quick': 5000, 'thorough': 150000},
+ 'consts': ['MAX_NOISE_MSG_LEN', 'NOISE_EXTRA_ENCRYPT_SPACE', 'MAX_FRAME_LEN', 'MAX_READ_AHEAD_FACTOR', 'MAX_WRITE_BUFFER_SIZE',
+            'TCP_NOISE_READ_AHEAD_DEFAULT', 'TCP_NOISE_WRITE_BUFFER_DEFAULT', 'WS_NOISE_READ_AHEAD_DEFAULT',
+            'WS_NOISE_WRITE_BUFFER_DEFAULT', 'NOISE_KIND_TABLE_SIZE'],
  'nontrivial_min_trace': 40,
- 'rule': 'seeded random cases: read-ahead factor in {1,2,3,5}, write-buffer size in {1,2,4}; 1-10 poll_write calls with sizes from '
-         '{0,1,2,3,15,16,17,...,16384}, MAX_FRAME_LEN-1/+0/+1, 2x and 3x MAX_FRAME_LEN +-1, 65520/65521, 131040/131041, 3*65520+1, random '
-         'up to 200000, 10% of them as poll_write_vectored with empty and extra buffers, interleaved poll_flush and poll_close (early, '
-         'repeated, followed by further calls), against a carrier whose every call (write/flush/close) follows a script: accept '
-         '1/2/17/.../65538/all bytes, Pending, Ok(0), or an I/O error (ConnectionReset/BrokenPipe/TimedOut/Other), BrokenPipe once closed; '
-         'the recorded ciphertext is left alone (55%) or one frame has a header/body byte flipped, is dropped, replayed, swapped with its '
-         'successor, or the stream is truncated; the reader side is polled with buffer sizes from '
-         '{0,1,2,15,16,17,4096,MAX_FRAME_LEN-16..+1,65504,65519,65520,70000,random} while the carrier delivers single bytes, 1-3 bytes, '
-         'frame-sized +-1, max_read-aligned +-2 or random chunks with Pending, zero-length reads and I/O errors injected at random calls '
-         '(start, mid-header, mid-frame), then drains to EOF; BOTH sockets are polled on after every error and EOF (only a panic ends a '
-         'run). A real handshake() pair is made per case. After EVERY poll_write/poll_write_vectored/poll_flush/poll_close/poll_read the '
-         "result and the socket's framing state (write_state, offset, encrypted_len, bytes with the carrier, carrier closed; read_state "
-         'tag and fields incl. Failed, nread, offset, current_frame_size, bytes pulled) and whether the last carrier call of that poll '
-         'returned Pending are compared with the extracted Coq model; the harness checks the content of every delivered chunk against '
-         'the position-dependent byte pattern that was written; compiled constants and buffer lengths head every trace. Non-trivial = '
-         'trace of >= 40 numbers; distinct = distinct (case, trace) pairs',
+ 'rule': 'seeded random cases, 30% in the single-round format (dialer writes, one manipulation; also produced by C19), 70% as a '
+         'CONNECTION of 1-4 rounds in either direction over one real handshake() pair (read-ahead factor in {1,2,3,5}, write-buffer '
+         'size in {1,2,4}; 1% each with 0, judged outside the property): per round the writing socket gets 0-8 poll_write calls with '
+         'sizes from {0,1,2,3,15,16,17,...,16384}, MAX_FRAME_LEN-1/+0/+1, 2x and 3x MAX_FRAME_LEN +-1, 65520/65521, 131040/131041, '
+         '3*65520+1, random up to 200000, 10% of them as poll_write_vectored with empty and extra buffers, interleaved poll_flush and '
+         'poll_close (early, repeated, followed by further calls), against a carrier whose every call (write/flush/close) follows a '
+         'script: accept 1/2/17/.../65538/all bytes, Pending, Ok(0), or an I/O error of ANY stable io::ErrorKind (table of 39 kinds, '
+         'incl. the four the socket produces itself, plus codes outside the table = Other), BrokenPipe once closed; then the network '
+         'takes the frames that reached the carrier completely since the last delivery and applies a LIST of 0-3 manipulations (byte '
+         'flip in header or body, drop, adjacent replay, replay at a distance, adjacent swap, move at a distance, forged frame with '
+         'arbitrary header/body length, byte inserted into / removed from a body, body replaced by the same-length ciphertext of '
+         'ANOTHER session with the same nonce, truncation) and appends them to what the reading socket\'s carrier delivers; the '
+         'reading socket is polled with buffer sizes from {0,1,2,15,16,17,4096,MAX_FRAME_LEN-16..+1,65504,65519,65520,70000,random} '
+         'while its carrier delivers single bytes, 1-3 bytes, frame-sized +-1, max_read-aligned +-2 or random chunks with Pending, '
+         'zero-length reads and I/O errors of any kind injected at random calls (start, mid-header, mid-frame), then drains to EOF; '
+         'in 45% of the rounds calls on the READING socket\'s own writer half (write/flush/close with their own carrier script) are '
+         'interleaved with its poll_read calls, and what they send travels in a later round; reader state, nonces and a carrier end '
+         'in mid-frame carry over to the next delivery; in 35% of the connections that start dialer->listener the first round\'s '
+         'ciphertext is put behind handshake message 3 before the listener\'s handshake() has read it (early data). BOTH sockets are '
+         'polled on after every error and EOF (only a panic ends a run). After EVERY poll_write / poll_write_vectored / poll_flush / '
+         "poll_close / poll_read the result and the socket's framing state (write_state, offset, encrypted_len, bytes with the "
+         'carrier, carrier closed, SENDING NONCE; read_state tag and fields incl. Failed, nread, offset, current_frame_size, bytes '
+         'pulled, RECEIVING NONCE, and whether read_buffer[..nread] equals the wire window) and whether the last carrier call of that '
+         'poll returned Pending are compared with the extracted Coq model; the harness checks the content of every delivered chunk '
+         "against the position-dependent byte pattern of that direction; compiled constants, buffer lengths and snow's measured "
+         'message limit head every trace. Non-trivial = trace of >= 40 numbers; distinct = distinct (case, trace) pairs',
  'trusted_base': ['AEAD abstraction: a slice decrypts iff it is exactly the k-th ciphertext of the peer and k is the receive counter '
-                  "(ChaChaPoly integrity and snow's nonce handling are assumed, exercised by the tamper stream of the harness, not proved)",
-                  "snow's message-size checks (payload + 16 <= 65535 on write, message <= 65535 on read, output buffer large enough) are "
-                  'written into the model as the constant SNOW_MAX = 65535 (snow 0.9.6 constants.rs), not read by gen_consts.py',
-                  'read_buffer[0..nread) is modelled as a contiguous window of the wire (position of its first byte); the one-byte copy of '
-                  'reset_read_state is therefore correct by construction in the model and checked on real bytes by the harness only',
+                  "(ChaChaPoly integrity, snow's nonce handling and the independence of the two directions' and of different "
+                  "sessions' keys are assumed; exercised by every manipulation kind of the harness incl. replay at a distance and "
+                  'frames of another session, not proved)',
+                  "snow's message-size limit is the literal SNOW_MAX = 65535 in the model; the harness measures it on a snow transport "
+                  "state built with litep2p's parameters and resolver and every trace carries the measured value (diffed)",
                   'payload bytes are stream positions; usize arithmetic is unbounded',
-                  'the scripted in-memory carrier of the harness stands for the transport: one script entry per carrier call, EOF for ever '
-                  'at the end of the read script, BrokenPipe for writes after its poll_close returned Ready; "a carrier call that returns '
-                  'Pending has registered the waker" is the AsyncRead/AsyncWrite contract and is assumed of the carrier',
-                  'poll_write_vectored is the default implementation of futures::AsyncWrite (first non-empty buffer); the model states that'],
- 'level_text': 'Proof: the reader state machine (ReadData/ReadFrameLen/ProcessNextFrame/Failed with read-ahead window, auxiliary tail and '
-               '0/1-byte carry-over) keeps an inductive invariant (window/cursor alignment on frame boundaries, all slice bounds) for '
-               'every wire, every carrier behaviour (chunking, Pending, zero-length reads, I/O errors and EOF at any point), every '
-               'buffer-size sequence incl. empty buffers and factor >= 1, with the socket polled on after errors; hence no panic, delivered '
-               'chunks are consecutive pieces of the written stream, nothing of or after a non-authentic frame is delivered, after '
-               'InvalidData every later poll is InvalidData (fail-stop), an honest wire never yields InvalidData and is delivered completely '
-               'by EOF; the writer (poll_write, vectored, poll_flush, poll_close, used on after carrier errors) frames exactly the accepted '
-               'bytes in 1..MAX_FRAME_LEN-byte frames, never panics or fails by itself, flush = Ready empties the buffer, close = Ready '
-               'means everything accepted was handed to the carrier before it was closed and nothing reaches it afterwards; Pending is only '
-               'returned after the carrier returned Pending (no lost wake-up) on both sides; end-to-end composition. The model is tied to '
-               'noise/mod.rs by a per-poll differential run with state dumps over a real handshake pair.',
- 'level_note': 'Trusted: Coq kernel, ExtrOcamlBasic extraction, harness and hooks; AEAD and snow limits abstract; buffer content modelled '
-               'by position; the carrier contract (Pending registers the waker). Found and fixed (two `fix:` commits in /repo): (1) '
-               'MAX_FRAME_LEN was 65520 (> 65535-16), so every poll_write of >= 65520 bytes failed with InvalidData (witness '
-               'corpus/C02/w01_write_65520.case; C02_unfixed_refuted); (2) after poll_read had returned InvalidData for a frame that does '
-               'not decrypt, the next poll_read panicked on expect("`frame_size` to exist") (witness corpus/C02/w03_repoll_after_error.case); '
-               'the state machine now has a sticky Failed state. Observed, not a violation of the property text: NoiseSocket has no closed '
-               'state of its own — a poll_write after a completed poll_close is accepted into the encrypt buffer and only the next call '
-               'fails with the carrier\'s error; those bytes never reach the peer (C02_close_flushes states exactly this). Not modelled: '
-               'the tracing side effects, poll_close of the read half (there is none), concurrent use of the two halves.',
- 'assumptions': ['noise_read_ahead_frame_count >= 1 and noise_write_buffer_size >= 1',
+                  'the scripted in-memory carrier of the harness stands for the transport: one script entry per carrier call, EOF at '
+                  'the end of a read script (a later round brings a new script), BrokenPipe for writes after its poll_close returned '
+                  'Ready; "a carrier call that returns Pending has registered the waker" is the AsyncRead/AsyncWrite contract and is '
+                  'assumed of the carrier',
+                  'poll_write_vectored is the default implementation of futures::AsyncWrite (first non-empty buffer); the model states that',
+                  'the table of io::ErrorKinds is the list of stable variants of the toolchain (std marks the enum non_exhaustive); '
+                  'tools/gen_c02_kinds.py reads it from harness/src/c02.rs'],
+ 'level_text': 'Proof: the reader state machine (ReadData/ReadFrameLen/ProcessNextFrame/Failed with read-ahead window, auxiliary tail '
+               'and 0/1-byte carry-over) keeps an inductive invariant (window/cursor alignment on frame boundaries, all slice bounds) '
+               'for every wire, every carrier behaviour (chunking, Pending, zero-length reads, I/O errors of any kind and EOF at any '
+               'point), every buffer-size sequence incl. empty buffers and factor >= 1, with the socket polled on after errors; hence no '
+               'panic, delivered chunks are consecutive pieces of the written stream, the plaintext delivered never exceeds the clean '
+               'prefix of the wire (nothing of or after a non-authentic frame), an error is either the carrier\'s own (passed through '
+               'unchanged, reader goes on) or the socket\'s InvalidData and then every later poll is InvalidData (fail-stop on the Failed '
+               'state), an honest wire never fails and is delivered completely by EOF; every LIST of manipulations (flip, drop, replay '
+               'and reorder at any distance, forged frames, bytes inserted/removed, foreign-session frames, truncation) yields an '
+               'environment these theorems apply to (wf_env discharged); the receive nonce only passes authentic in-order frames; the '
+               'byte-level read buffer (carrier writes + one-byte copy of reset_read_state) refines the window abstraction; the writer '
+               '(poll_write, vectored, poll_flush, poll_close, used on after carrier errors) frames exactly the accepted bytes in '
+               '1..MAX_FRAME_LEN-byte frames, never panics, never fails by itself (every error is BrokenPipe after close, WriteZero, '
+               'or the carrier\'s kind), only ever appends, flush = Ready empties the buffer, close = Ready means everything accepted '
+               'was handed to the carrier before it was closed and nothing reaches it afterwards; Pending only after the carrier '
+               'returned Pending (no lost wake-up) on both sides; the two halves of a socket used in any interleaving behave as each '
+               'alone; a whole CONNECTION (any number of rounds in both directions, deliveries appended to a growing wire, arbitrary '
+               'manipulation per round, both halves in use) never panics and keeps both directions in order, an untouched direction '
+               'delivers everything; end-to-end composition. Constants, config defaults and error-kind tables are re-read from the '
+               'source on every run. The model is tied to noise/mod.rs by a per-poll differential run with state dumps (incl. both '
+               'nonces and the read-buffer window) over a real handshake pair in both directions.',
+ 'level_note': 'Trusted: Coq kernel, ExtrOcamlBasic extraction, harness and hooks; the AEAD abstraction; the carrier contract (Pending '
+               'registers the waker). Found and fixed earlier (two `fix:` commits in /repo): (1) MAX_FRAME_LEN was 65520 (> 65535-16), '
+               'so every poll_write of >= 65520 bytes failed with InvalidData (witness corpus/C02/w01_write_65520.case; '
+               'C02_unfixed_refuted); (2) after poll_read had returned InvalidData for a frame that does not decrypt, the next poll_read '
+               'panicked on expect("`frame_size` to exist") (witness corpus/C02/w03_repoll_after_error.case); the state machine now has a '
+               'sticky Failed state. Observed, not a violation of the property text: (a) NoiseSocket has no closed state of its own — a '
+               'poll_write after a completed poll_close is accepted into the encrypt buffer and only the next call fails with the '
+               'carrier\'s error; those bytes never reach the peer (C02_close_flushes states exactly this). (b) The pub config fields '
+               'noise_read_ahead_frame_count / noise_write_buffer_size are not validated: with a write-buffer size of 0 poll_write '
+               'returns Pending without any waker (the caller hangs, nothing is ever written), with a read-ahead factor of 0 every '
+               'poll_read reports UnexpectedEof; model and code agree on both (corpus/C02/w09), the theorems assume >= 1 and the '
+               'defaults are proved >= 1 (C02_constants). (c) handshake() reads exactly its three messages (early-data stream); the '
+               'multistream-select layers around it are C03\'s. Not modelled: tracing side effects; true parallel use of the two halves '
+               '(impossible: both need &mut self); the WebRTC transport uses NoiseContext for the handshake only, never NoiseSocket.',
+ 'assumptions': ['noise_read_ahead_frame_count >= 1 and noise_write_buffer_size >= 1 (true of the defaults: C02_constants)',
                  'frame headers are 16-bit',
-                 'the carrier honours the AsyncRead/AsyncWrite contract (Pending registers the waker); its errors are reported as they come']}
+                 'the carrier honours the AsyncRead/AsyncWrite contract (Pending registers the waker); its errors are reported as they come'],
+ 'clause_map': [
+     ['After the handshake (no byte of the transport stream is consumed by handshake())',
+      'model: the reader starts at wire position 0 (reader_init, C02_read_exact)',
+      'early-data connections: first round\'s ciphertext behind handshake message 3 before the listener\'s handshake() returns; corpus w05'],
+     ['the bytes read on one side are exactly the bytes written on the other side (both directions)',
+      'C02_end_to_end, C02_read_honest, C02_duplex_round (mixed_ok with hon = true), C02_duplex_rounds, C02_rounds_compose',
+      'rounds in both directions; content of every delivered chunk compared with the direction\'s byte pattern; per-poll diff'],
+     ['in order and without loss or duplication',
+      'C02_read_exact (pieces_ok: consecutive positions), C02_read_invariant, C02_poll_read_step; no loss: honest_ok / mixed_ok '
+      '(everything delivered by the time EOF follows the whole wire), C02_write_frames (frames = accepted bytes), C02_flush_complete, '
+      'C02_close_flushes, C02_writer_monotone',
+      'position check of every chunk; oracle: delivered = accepted when EOF follows the whole clean wire; sent = frames_wire(plains)'],
+     ['for every write size',
+      'C02_write_frames, C02_poll_write_step, C02_write_progress, C02_write_empty (all len), C02_constants (MAX_FRAME_LEN + 16 <= 65535)',
+      'sizes at and around 65519/65520, multiples, 0, vectored; snow\'s measured limit in the trace header'],
+     ['read-buffer size',
+      'C02_read_exact / C02_read_invariant quantify over all buffer-size sequences incl. 0',
+      'buffer sizes 0,1,2,15..17,4096,MFL-16..MFL+1,65504,65519,65520,70000,random'],
+     ['buffering configuration',
+      'all theorems for every c_factor >= 1, c_wbuf >= 1; C02_constants (source constants and the Default impls of tcp/websocket config)',
+      'factor in {1,2,3,5}, wbuf in {1,2,4}; 0 compared with the model only'],
+     ['fragmentation of the underlying transport (chunking, Pending, errors)',
+      'carrier scripts are universally quantified in every theorem; C02_read_pending_has_waker, wres_ok (Pending => waker); '
+      'C02_buffer_window, C02_buffer_window_step, C02_buffer_slice (byte-level buffer incl. the 1-byte carry-over); C02_wire_grows',
+      'scripted carrier on both sides: 1-byte, frame +-1, max_read +-2, random, Pending, Ok(0), every io::ErrorKind; window bit per poll'],
+     ['If ciphertext is modified, truncated, replayed, dropped or reordered in transit',
+      'C02_tamper_wf (every list of manipulations is covered), C02_read_tamper, C02_read_clean_prefix, C02_nonce_discipline, C02_nonce_step, C02_connection',
+      'manipulation lists of 12 kinds per round; receiving nonce per poll'],
+     ['the reader gets an error',
+      'C02_read_clean_prefix + C02_read_exact (a non-empty buffer never gets Ready(0): beyond the clean prefix every poll is Pending or '
+      'an error), C02_fail_stop, C02_failed_repoll, C02_error_kinds',
+      'oracle: delivered <= clean prefix, Failed is sticky, error kinds classified by source'],
+     ['and never receives altered plaintext',
+      'C02_read_exact (positions), C02_read_clean_prefix (nothing of or after a non-authentic frame)',
+      'content check of every delivered chunk on real bytes'],
+ ]}
